@@ -523,6 +523,9 @@ func (e *Env) evalBinary(x *Expr) TV {
 		case ">>":
 			return TV{Scalar{EDiv(l, e.fv.pow2(r))}, nil}
 		case "&":
+			if f := intBitFold("&", l, r); f != nil {
+				return TV{Scalar{f}, nil}
+			}
 			if r.Op == "int" {
 				m := new(big.Int).Add(r.Int, big.NewInt(1))
 				if r.Int.Sign() >= 0 && new(big.Int).And(m, r.Int).Sign() == 0 {
@@ -531,8 +534,14 @@ func (e *Env) evalBinary(x *Expr) TV {
 			}
 			return TV{Scalar{App("bvand", IntSort, l, r)}, nil}
 		case "|":
+			if f := intBitFold("|", l, r); f != nil {
+				return TV{Scalar{f}, nil}
+			}
 			return TV{Scalar{App("bvor", IntSort, l, r)}, nil}
 		case "^":
+			if f := intBitFold("^", l, r); f != nil {
+				return TV{Scalar{f}, nil}
+			}
 			return TV{Scalar{App("bvxor", IntSort, l, r)}, nil}
 		}
 	}
